@@ -36,6 +36,16 @@ input (C01-3), in-place output writes (C07-4), non-hermetic targets re-run under
 (C08-4), SIGTERM-trapping shells + orphan oracle (C18-3), a slow simulated disk during
 interrupts (C18-4), per-build host platform (own sensitivity test: platform dropped from the key).
 
+Wave 7 closed: output-check shells outside the cancellation (C18-6: checks take time and are
+tracked), the helper table of a re-run dependency (C15-6), a failed PID write that no longer fails
+`Lock` (C10-5: full disk at the PID write in W-lock), a holder that releases the lock when the
+interrupt arrives (C10-6: contending build in W-build), a waiter that probes the holder only once
+(C18-5, found by the C10 check). Not detected at the quick tier: C03-6 (a directory restore that
+returns before a nested sub-directory is back) needs a restored directory with files below a
+sub-directory, a dependant executing in the same build and a schedule that starves the stray
+walker; measured about 1e-4 per run even with the walker force-starved (`SIM_DEBUG_LOWPRIO`), i.e.
+a thorough-tier find.
+
 Behaviour-preserving changes (9 refactors from three sub-agents told to keep every property intact while
 perturbing structure: WaitGroup -> channel, reordered goroutine starts, split functions, merged
 removal sites of the locker, swapped independent statements ...) are stored under
